@@ -81,7 +81,7 @@ def main():
         if rep.get("mode") == "nested":
             cfg = sn.NCONFIGS[rep["config"]]
             res = sc.run_impl(cfg["reqs"], False, sc.index_chooser(rep["indices"]), lines=rep.get("lines", False),
-                              fixture=sn.fixture_for(cfg["nested"]))
+                              fixture=sn.fixture_for(cfg["nested"], cfg.get("pool", ())))
             _, c14 = sn.judge(res, cfg)
         else:
             cfg = sc.CONFIGS[rep["config"]]
